@@ -215,6 +215,18 @@ func usesLocks(f *FuncCFG, wrappers map[string]lockOp) bool {
 // lockPairingPkgs checks lock balance for every function of the given packages.
 // privateAssume: field symbols assumed false (MemCachedStore.private) so that conditional wrappers pair up.
 func lockPairingPkgs(c *Ctx, rels []string, assume *Assume, minFuncs int) {
+	if c.Tier == "thorough" {
+		// widen to the whole module; the one deliberate lock hand-off between goroutines is tabled
+		rels = nil
+		for _, pk := range c.P.Pkgs {
+			if r := pkgRel(pk.Types); r != "pkg/services/oracle" {
+				rels = append(rels, r)
+			}
+		}
+		if assume == nil {
+			assume = symAssume("pkg/core/storage#private", false)
+		}
+	}
 	wr := c.P.lockWrappers()
 	n := 0
 	for _, fd := range c.P.AllFuncDecls() {
